@@ -581,4 +581,114 @@ theorem fromNote_equal_lengths (t : Tuning) (note : Note) (width : Int) (names :
         · simp only [hi, if_false, List.length_append]
           rw [centred_length _ _ (by omega)]
 
+/-! ### from_Bar: equal string lines -/
+
+theorem rjust_length (x : Str) (n : Nat) (h : x.length ≤ n) : (rjust x n).length = n := by
+  simp [rjust]; omega
+
+theorem maxLen_ge (f : Fingering) : ∀ (m0 : Nat), m0 ≤ maxLen f m0 ∧ ∀ p ∈ f, (Note.showInt p.2).length ≤ maxLen f m0 := by
+  unfold maxLen
+  induction f with
+  | nil => intro m0; simp
+  | cons q qs ih =>
+    intro m0
+    simp only [List.foldl_cons]
+    by_cases hq : (Note.showInt q.2).length > m0
+    · simp only [hq, if_true]
+      obtain ⟨h1, h2⟩ := ih (Note.showInt q.2).length
+      refine ⟨by omega, ?_⟩
+      intro p hp
+      rcases List.mem_cons.1 hp with rfl | hp
+      · exact h1
+      · exact h2 p hp
+    · simp only [hq, if_false]
+      obtain ⟨h1, h2⟩ := ih m0
+      refine ⟨h1, ?_⟩
+      intro p hp
+      rcases List.mem_cons.1 hp with rfl | hp
+      · omega
+      · exact h2 p hp
+
+/-- one entry adds the same number of columns to every string line -/
+theorem entryCols_length (f : Fingering) (m0 : Nat) (dur : Int) (i : Nat) (ln : Line) :
+    (entryCols f (maxLen f m0) dur i ln).length = ln.length + (maxLen f m0 + dur.toNat) := by
+  unfold entryCols
+  cases hf : f.reverse.find? (·.1 == i) with
+  | none =>
+    simp only [List.length_append, rep_length]
+    have : ((maxLen f m0 : Nat) : Int).toNat = maxLen f m0 := by simp
+    rw [this]; omega
+  | some q =>
+    have hmem : q ∈ f := by
+      have := List.mem_of_find?_eq_some hf
+      simpa using this
+    have hle := (maxLen_ge f m0).2 q hmem
+    simp only [List.length_append, rep_length]
+    rw [rjust_length _ _ hle]
+    omega
+
+theorem barStep_lengths (t : Tuning) (qsize : Int) (res0 res : List Line) (e : TEntry) (H : Nat)
+    (h0 : ∀ ln ∈ res0, ln.length = H) (h : barStep t qsize res0 e = .ok res) : ∃ H', ∀ ln ∈ res, ln.length = H' := by
+  unfold barStep at h
+  split at h
+  · cases h
+  · simp only [bind, Except.bind] at h
+    split at h
+    · cases h
+    · rename_i fm hfm
+      simp only [pure, Except.pure, Except.ok.injEq] at h
+      subst h
+      refine ⟨H + (maxLen fm.1 fm.2 + (columns e.value qsize - (maxLen fm.1 fm.2 : Int)).toNat), ?_⟩
+      intro ln hln
+      obtain ⟨p, hp, rfl⟩ := List.mem_map.1 hln
+      rw [entryCols_length, h0 p.2 (List.of_mem_zip hp).2]
+
+theorem foldl_barStep_lengths (t : Tuning) (qsize : Int) (es : List TEntry) : ∀ (res0 res : List Line) (H : Nat),
+    (∀ ln ∈ res0, ln.length = H) → es.foldlM (barStep t qsize) res0 = .ok res → ∃ H', ∀ ln ∈ res, ln.length = H' := by
+  induction es with
+  | nil => intro res0 res H h0 hr; simp only [List.foldlM_nil, pure, Except.pure, Except.ok.injEq] at hr; subst hr; exact ⟨H, h0⟩
+  | cons e es ih =>
+    intro res0 res H h0 hr
+    rw [List.foldlM_cons] at hr
+    cases h1 : barStep t qsize res0 e with
+    | error err => simp [h1, bind, Except.bind] at hr
+    | ok r1 =>
+      simp only [h1, bind, Except.bind] at hr
+      obtain ⟨H1, hH1⟩ := barStep_lengths t qsize res0 r1 e H h0 h1
+      exact ih r1 res H1 hH1 hr
+
+/-- **from_Bar**: for every single-string tuning whose labels fit the label column, every bar and every width, the string
+    lines of the rendering (everything after the quarter-mark line) all have the same length -/
+theorem fromBar_equal_lengths (t : Tuning) (b : TBar) (width : Int) (names : List Str) (ls : List Line)
+    (hl : labels t = .ok names) (hfit : ∀ x ∈ names, (x.length : Int) + 1 ≤ (maxStr names).length + 3)
+    (h : fromBar t b width = .ok ls) :
+    ∃ L, ∀ ln ∈ ls.tail, ln.length = L := by
+  unfold fromBar at h
+  simp only [bind, Except.bind] at h
+  split at h
+  · cases h
+  · rename_i qsize hq
+    split at h
+    · cases h
+    · rename_i start hstart
+      have hlen := beginTrack_lengths t (max 2 (qsize / 2)) names start hl hfit hstart
+      obtain ⟨H0, hH0⟩ : ∃ H : Nat, ∀ ln ∈ start, ln.length = H := by
+        refine ⟨((maxStr names).length + 3 + 2 + (max 2 (qsize / 2)).toNat : Int).toNat, ?_⟩
+        intro ln hln; have := hlen ln hln; omega
+      split at h
+      · cases h
+      · rename_i result hres
+        obtain ⟨H1, hH1⟩ := foldl_barStep_lengths t qsize b.entries start result H0 hH0 hres
+        split at h
+        · cases h
+        · simp only [pure, Except.pure, Except.ok.injEq] at h
+          subst h
+          refine ⟨H1 + ((width - (((result.headD []).length : Int) + 1)).toNat + 1), ?_⟩
+          intro ln hln
+          simp only [List.tail_cons, List.mem_reverse, List.mem_map] at hln
+          obtain ⟨x, hx, rfl⟩ := hln
+          simp only [List.length_append, rep_length, hH1 x hx, lit]
+          have : ("|".toList).length = 1 := by decide
+          rw [this]; omega
+
 end Mingus.Props.C20
